@@ -377,6 +377,7 @@ class Conv:
         self.tls = tls
         self.client_tls = False
         self.client_cert = False
+        self.alpn_bytes = 0
         self.server_client_cert = False
         self.meta = meta or {}
         self.chunks = []
@@ -439,7 +440,7 @@ class Conv:
               "shim": {"kind": self.shim, "auth": self.auth, "tls": self.tls, "client_cert": self.server_client_cert,
                        "programs": self.programs, "prepares": self.prepares},
               "client": {"mode": self.mode, "msgs": self.msgs, "tls": self.client_tls, "cert": self.client_cert,
-                         "tls_from": 1},
+                         "tls_from": 1, "alpn_bytes": self.alpn_bytes},
               "transport": {"chunks": self.chunks, "then": self.then}}
         if self.short_writes:
             sc["transport"]["short_writes"] = self.short_writes
